@@ -427,6 +427,32 @@ def sec_runner(rep):
     rep.add(ob_eval("C14/Runner.get_sf/post(one StructureFunction per observable name)", a is b and list(r.observables) == ["F2_charm"]))
 
 
+def sec_update_independent_of_requests(rep):
+    """The configuration of a run is a function of the cards' PARAMETERS: compatibility.update returns
+    the same theory for every list of requested observables (light only, heavy only, both, cross
+    sections, none) -- otherwise F2_light computed alone and next to F2_charm are different numbers."""
+    from yadism.input import compatibility as comp
+
+    rep.under_contract(comp.update, comp.update_fns)
+    pts = [{"x": 0.1, "Q2": 10.0}]
+    requests = {"light only": {"F2_light": pts, "FL_light": pts}, "light + charm": {"F2_light": pts, "F2_charm": pts}, "total": {"F3_total": pts}, "heavy only": {"F2_bottom": pts, "g1_top": pts}, "cross section": {"XSHERANC_light": [dict(pts[0], y=0.5)]}, "bare kinds": {"F2": pts, "FL": pts}, "none": {}}
+    for fns in H.SCHEMES:
+        for nf_ff in (3, 4, 5):
+            rep.cases += 1
+            outs = {}
+            try:
+                for nm, obs in requests.items():
+                    th = H.base_theory(FNS=fns, NfFF=nf_ff, PTO=2, kcThr=1.1, kbThr=0.9)
+                    new_th, new_ob = comp.update(th, H.base_obs(observables=copy.deepcopy(obs)))
+                    outs[nm] = {k: repr(v) for k, v in new_th.items()}
+                ref = outs["light + charm"]
+                diff = {nm: sorted(k for k in set(o) | set(ref) if o.get(k) != ref.get(k)) for nm, o in outs.items() if o != ref}
+                ok, detail = not diff, f"entries of the translated theory that depend on the requests: {diff}"
+            except Exception as e:  # noqa
+                ok, detail = False, f"{type(e).__name__}: {e}"
+            rep.add(ob_eval(f"C14/compatibility.update/{fns} NfFF={nf_ff}: the translated theory is the same for every list of requested observables", ok, detail=detail if not ok else f"{len(requests)} request lists", inputs={} if ok else {"FNS": fns, "NfFF": nf_ff, "observed": detail}, replay={"confirmed": True, "python": "compatibility.update(theory, observables) for the listed request lists"}))
+
+
 def sec_frame(rep):
     """AST write-set: module-level mutable state written from inside functions."""
     root = os.path.join(boot.SRC, "yadism")
@@ -528,7 +554,7 @@ def run(rep, tier, seed, only=None):
         "the operators cached by the scale-variation manager are functions of their key only if convolve_operator writes every entry it returns: its contract (C01) is re-discharged here with an allocator model in which uninitialised memory (np.empty) holds a poison value",
         "dict lookups hash their keys: key collisions cannot be explored symbolically, so key *construction* is checked symbolically (components by name) and lookup on concrete histories",
     )
-    for nm, f in (("sf_cache", sec_sf_cache), ("esf", sec_esf_memo), ("other", sec_other_caches), ("shared", sec_shared_state), ("runner", sec_runner), ("frame", sec_frame), ("weightsframe", H.weights_frame), ("svframe", lambda r: [__import__("contracts.c05", fromlist=["x"]).switch_worker(r, it) for it in ((2, 5, "intrinsic"), (1, 3, "intrinsic"), (3, 4, "intrinsic"))]), ("computeraw", lambda r: __import__("contracts.c05", fromlist=["x"]).sec_compute_raw(r)), ("convolveoperator", lambda r: __import__("contracts.c01", fromlist=["x"]).sec_convolve_vector(r)), ("bounded", lambda r: sec_bounded_end_to_end(r, tier))):
+    for nm, f in (("sf_cache", sec_sf_cache), ("esf", sec_esf_memo), ("other", sec_other_caches), ("shared", sec_shared_state), ("runner", sec_runner), ("updaterequests", sec_update_independent_of_requests), ("rgeshared", lambda r: __import__("contracts.c05", fromlist=["x"]).sec_rge_shared(r)), ("frame", sec_frame), ("weightsframe", H.weights_frame), ("svframe", lambda r: [__import__("contracts.c05", fromlist=["x"]).switch_worker(r, it) for it in ((2, 5, "intrinsic"), (1, 3, "intrinsic"), (3, 4, "intrinsic"))]), ("computeraw", lambda r: __import__("contracts.c05", fromlist=["x"]).sec_compute_raw(r)), ("convolveoperator", lambda r: __import__("contracts.c01", fromlist=["x"]).sec_convolve_vector(r)), ("bounded", lambda r: sec_bounded_end_to_end(r, tier))):
         if only and only not in nm:
             continue
         rep.add(guarded(f"C14/{nm}", lambda f=f: (f(rep), [])[1]))
